@@ -12,12 +12,20 @@ pub uninterp spec fn is_utf8(s: Seq<u8>) -> bool;
 #[verifier::external_body]
 pub struct ExUtf8Error(std::str::Utf8Error);
 
+// bytes of a str / String (uninterpreted views; related to byte slices only through the specs below)
+pub uninterp spec fn str_bytes(s: &str) -> Seq<u8>;
+pub uninterp spec fn string_bytes(s: String) -> Seq<u8>;
+pub open spec fn cow_bytes(c: Cow<'_, str>) -> Seq<u8> {
+    match c { Cow::Borrowed(s) => str_bytes(s), Cow::Owned(s) => string_bytes(s) }
+}
+
 pub assume_specification<'a> [std::str::from_utf8] (b: &'a [u8]) -> (r: Result<&'a str, std::str::Utf8Error>)
-    ensures r is Ok <==> is_utf8(b@);
+    ensures r is Ok <==> is_utf8(b@), r is Ok ==> str_bytes(r.unwrap()) == b@;
 
 // R9 drops `unsafe`; the safety condition of from_utf8_unchecked becomes a proof obligation
 pub assume_specification<'a> [std::str::from_utf8_unchecked] (b: &'a [u8]) -> (r: &'a str)
-    requires is_utf8(b@);
+    requires is_utf8(b@)
+    ensures str_bytes(r) == b@;
 
 pub assume_specification [i32::abs] (x: i32) -> (r: i32)
     requires x != i32::MIN
